@@ -502,6 +502,170 @@ Definition b16_convert (chunks : list (list N)) : outcome (list N) :=
   c16_run c16_new [] (tokens chunks).
 
 (* ------------------------------------------------------------------ *)
+(* Bounded octets builders (octseq::Array<N>, heapless::Vec, ...):      *)
+(* append_slice fails with ShortBuf when the capacity is exhausted.     *)
+(* cap = None is the unbounded builder; for it the definitions below     *)
+(* coincide with the ones above (ProofsCap.v: *_cap_none).               *)
+
+Definition fits (cap : option N) (l : list N) : bool :=
+  match cap with None => true | Some c => N.of_nat (length l) + 1 <=? c end.
+Definition try_append (cap : option N) (l : list N) (v : N) : option (list N) :=
+  if fits cap l then Some (l ++ [v]) else None.
+(* base32/base16 Decoder::append: on failure self.target = Err(ShortBuf) *)
+Definition append_cap (cap : option N) (t : target) (v : N) : target :=
+  match t with
+  | Ok l => if fits cap l then Ok (l ++ [v]) else Err E_SHORTBUF
+  | other => other
+  end.
+
+(* base64: target.append_slice(..).map_err(Into::into)?  -- push_char returns
+   Err(ShortBuf) at once, `next` stays 4, what was appended before stays *)
+Definition b64_cont_cap (cap : option N) (d : dec64) (val : N) : outcome (dec64 * option N) :=
+  do buf' <- buf4_set (d64_buf d) (d64_next d) val;
+  let next' := d64_next d + 1 in
+  if next' =? b64_group then
+    match d64_target d with
+    | Ok t0 =>
+        let '(x0, x1, x2, x3) := buf' in
+        let short (t : list N) : outcome (dec64 * option N) :=
+          Ok (mk64 buf' next' (Ok t), Some E_SHORTBUF) in
+        match try_append cap t0 (b64_oct0 x0 x1 x2 x3) with
+        | None => short t0
+        | Some t1 =>
+            match (if negb (x2 =? b64_push_pad_val)
+                   then try_append cap t1 (b64_oct1 x0 x1 x2 x3) else Some t1) with
+            | None => short t1
+            | Some t2 =>
+                if negb (x3 =? b64_push_pad_val) then
+                  if x2 =? b64_push_pad_val then Ok (mk64 buf' next' (Ok t2), Some E_TRAILING)
+                  else match try_append cap t2 (b64_oct2 x0 x1 x2 x3) with
+                       | None => short t2
+                       | Some t3 => Ok (mk64 buf' 0 (Ok t3), None)
+                       end
+                else Ok (mk64 buf' b64_push_eof (Ok t2), None)
+            end
+        end
+    | _ => Panic 3
+    end
+  else Ok (mk64 buf' next' (d64_target d), None).
+
+Definition b64_push_char_cap (cap : option N) (d : dec64) (ch : N) : outcome (dec64 * option N) :=
+  if d64_next d =? b64_push_eof then
+    Ok (mk64 (d64_buf d) (d64_next d) (Err E_TRAILING), Some E_TRAILING)
+  else if ch =? b64_pad then
+    if d64_next d <? b64_push_pad_min then Ok (d, Some (E_illegal ch))
+    else b64_cont_cap cap d b64_push_pad_val
+  else if b64_ascii_max <? ch then Ok (d, Some (E_illegal ch))
+  else
+    do v <- tab_get b64_decode_tab ch;
+    if v =? b64_illegal_val then Ok (d, Some (E_illegal ch)) else b64_cont_cap cap d v.
+
+Definition b64_push_cap (cap : option N) (sticky : bool) (d : dec64) (ch : N)
+  : outcome (dec64 * option N) :=
+  if sticky then
+    match d64_target d with
+    | Err e => Ok (d, Some e)
+    | _ =>
+        match b64_push_char_cap cap d ch with
+        | Ok (d', Some e) => Ok (mk64 (d64_buf d') (d64_next d') (Err e), Some e)
+        | other => other
+        end
+    end
+  else b64_push_char_cap cap d ch.
+
+Definition b32_push_cap (cap : option N) (d : dec32) (ch : N) : outcome (dec32 * option N) :=
+  let ill := Ok (mk32 (d32_buf d) (d32_next d) (Err (E_illegal ch)), Some (E_illegal ch)) in
+  if b32_ascii_max <? ch then ill
+  else
+    do v <- tab_get b32_decode_tab ch;
+    if v =? b32_illegal_val then ill
+    else
+      do buf' <- buf8_set (d32_buf d) (d32_next d) v;
+      let next' := d32_next d + 1 in
+      let d1 :=
+        if next' =? b32_group
+        then mk32 buf' 0 (fold_left (append_cap cap) (b32_octets buf') (d32_target d))
+        else mk32 buf' next' (d32_target d) in
+      Ok (d1, target_err (d32_target d1)).
+
+Definition b32_finalize_cap (cap : option N) (d : dec32) : outcome (list N) :=
+  match d32_target d with
+  | Ok _ =>
+      if d32_next d =? 0 then d32_target d
+      else if existsb (N.eqb (d32_next d)) b32_fin_short then Err E_SHORT
+      else match assoc (d32_next d) b32_fin_partial with
+           | Some k => fold_left (append_cap cap)
+                         (firstn (N.to_nat k) (b32_octets (d32_buf d))) (d32_target d)
+           | None => Panic 4
+           end
+  | other => other
+  end.
+
+Definition b16_push_cap (cap : option N) (d : dec16) (ch : N) : outcome (dec16 * option N) :=
+  do dg <- to_digit ch b16_radix;
+  match dg with
+  | None => Ok (mk16 (d16_buf d) (Err (E_illegal ch)), Some (E_illegal ch))
+  | Some value =>
+      let d1 := match d16_buf d with
+                | Some upper => mk16 None (append_cap cap (d16_target d) (N.lor upper value))
+                | None => mk16 (Some (N.land (N.shiftl value b16_shift) 255)) (d16_target d)
+                end in
+      Ok (d1, target_err (d16_target d1))
+  end.
+
+(* generic drivers over a push and a finalize function *)
+Section Drive.
+  Variable D : Type.
+  Variable push : D -> N -> outcome (D * option N).
+  Variable finalize : D -> outcome (list N).
+
+  Fixpoint decode_from_g (d : D) (s : list N) : outcome (list N) :=
+    match s with
+    | [] => finalize d
+    | ch :: r =>
+        match push d ch with
+        | Ok (d', None) => decode_from_g d' r
+        | Ok (_, Some e) => Err e
+        | Err e => Err e
+        | Panic p => Panic p
+        | OutOfFuel => OutOfFuel
+        end
+    end.
+
+  Fixpoint run_g (d : D) (s : list N) : list (option N) * outcome D :=
+    match s with
+    | [] => ([], Ok d)
+    | ch :: r =>
+        match push d ch with
+        | Ok (d', res) => let '(tr, fin) := run_g d' r in (res :: tr, fin)
+        | Err e => ([], Err e)
+        | Panic p => ([], Panic p)
+        | OutOfFuel => ([], OutOfFuel)
+        end
+    end.
+
+  Definition push_all_g (d0 : D) (s : list N) : list (option N) * outcome (list N) :=
+    let '(tr, fin) := run_g d0 s in
+    (tr, match fin with
+         | Ok d => match finalize d with
+                   | Ok l => Ok l | Err e => Err e | Panic p => Panic p | OutOfFuel => OutOfFuel end
+         | Err e => Panic 0 | Panic p => Panic p | OutOfFuel => OutOfFuel end).
+End Drive.
+
+Definition b64_decode_cap (cap : option N) (s : list N) : outcome (list N) :=
+  decode_from_g dec64 (b64_push_cap cap b64_push_sticky) b64_finalize b64_new s.
+Definition b64_push_all_cap (cap : option N) (s : list N) :=
+  push_all_g dec64 (b64_push_cap cap b64_push_sticky) b64_finalize b64_new s.
+Definition b32_decode_cap (cap : option N) (s : list N) : outcome (list N) :=
+  decode_from_g dec32 (b32_push_cap cap) (b32_finalize_cap cap) b32_new s.
+Definition b32_push_all_cap (cap : option N) (s : list N) :=
+  push_all_g dec32 (b32_push_cap cap) (b32_finalize_cap cap) b32_new s.
+Definition b16_decode_cap (cap : option N) (s : list N) : outcome (list N) :=
+  decode_from_g dec16 (b16_push_cap cap) b16_finalize b16_new s.
+Definition b16_push_all_cap (cap : option N) (s : list N) :=
+  push_all_g dec16 (b16_push_cap cap) b16_finalize b16_new s.
+
+(* ------------------------------------------------------------------ *)
 (* RFC 4648 as bit regrouping (the specification; independent of the   *)
 (* shift/mask code and of the decode tables above)                      *)
 
@@ -629,6 +793,12 @@ Definition c18_dec16 := b16_decode.
 Definition c18_push64 := b64_push_all.
 Definition c18_push32 := b32_push_all.
 Definition c18_push16 := b16_push_all.
+Definition c18_deccap64 := b64_decode_cap.
+Definition c18_deccap32 := b32_decode_cap.
+Definition c18_deccap16 := b16_decode_cap.
+Definition c18_pushcap64 := b64_push_all_cap.
+Definition c18_pushcap32 := b32_push_all_cap.
+Definition c18_pushcap16 := b16_push_all_cap.
 Definition c18_conv64 := b64_convert.
 Definition c18_conv32 := b32_convert.
 Definition c18_conv16 := b16_convert.
